@@ -904,25 +904,37 @@ def check_viewer(E, dm, m):
 # ---------------------------------------------------------------------------------------------
 # one step = one operation + all comparisons
 
-def compare_all(E, dm, m, order, active, info, light=False, deep_index=None):
-    """Raises Found / Crash.  order 'I' = indexed queries first, 'R' = row queries first."""
-    if deep_index is None:
-        deep_index = not light
-    fams = [("index", lambda: check_index(E, dm, m, active, deep=deep_index)), ("rows", lambda: check_rows(E, dm, m))]
+STALE_FAMILY = {"index": "index", "bundle": "index", "blocks": "index", "rows": "rows", "slow": "rows",
+                "columns": "rows", "viewer": "rows"}
+
+
+def compare_all(E, dm, m, order, active, info, light=False, only=None):
+    """Raises Found / Crash.  order 'I' = indexed queries first, 'R' = row queries first.
+    info["_fam"] names the family of queries that was running when a discrepancy was raised; only=<family> re-runs
+    just that family (used by the diagnosis in run_case)."""
+    fams = [("index", lambda: check_index(E, dm, m, active, deep=(not light) or only is not None)),
+            ("rows", lambda: check_rows(E, dm, m))]
     if order == "R":
         fams.reverse()
-    for _, f in fams:
+    if not light or only is not None:
+        fams.append(("columns", lambda: check_columns(E, dm, m, active)))
+        fams.append(("bundle", lambda: check_bundle_search(E, dm, m, active)))
+        fams.append(("slow", lambda: check_slow_query(E, dm, m)))
+        if m.is_gir():
+            fams.append(("blocks", lambda: check_blocks(E, dm, m, active)))
+            fams.append(("viewer", lambda: _viewer(E, dm, m, info)))
+        # and once more, now that every cache is warm
+        fams.append(("index", lambda: check_index(E, dm, m, active, deep=False)))
+    for name, f in fams:
+        if only is not None and name != only:
+            continue
+        info["_fam"] = name
         f()
-    if light:
-        return
-    check_columns(E, dm, m, active)
-    check_bundle_search(E, dm, m, active)
-    check_slow_query(E, dm, m)
-    if m.is_gir():
-        check_blocks(E, dm, m, active)
-        info["viewer:" + check_viewer(E, dm, m)] += 1
-    # and once more, now that every cache is warm
-    check_index(E, dm, m, active, deep=False)
+    info["_fam"] = ""
+
+
+def _viewer(E, dm, m, info):
+    info["viewer:" + check_viewer(E, dm, m)] += 1
 
 
 def opclass(op):
@@ -1106,6 +1118,20 @@ def construct(E, op):
     raise ValueError("first op must construct a table, got %r" % (name,))
 
 
+def cured(E, dm, m, active, info, fam):
+    """Diagnosis of a discrepancy: does a forced invalidation through the public API make the SAME family of queries
+    agree with the scan?  Then the cause is a cache that the last operation failed to invalidate."""
+    try:
+        dm.set_refresh_flag()
+        dm.get_rows()
+        compare_all(E, dm, m, "R", active, info, light=True, only=fam)
+        return True
+    except (Found, Crash):
+        return False
+    except BaseException:
+        return False
+
+
 def index_snapshot(m):
     return {(c, repr(v)): tuple(m.positions(c, v)) for c in m.cols for v in m.unique(c)}
 
@@ -1170,36 +1196,25 @@ def run_case(case, E=None):
                             compare_all(E, sdm, sm, "I", active, info, light=True)
                         except Found as f:
                             raise Found("other", ("sibling", how) + f.sig_tail[:1], "after %s on a table obtained by %s, the ORIGINAL table changed: %s" % (op[0], how, f.what))
+                        except Crash as c:
+                            raise Found("other", ("sibling", how, "crash"), "after %s on a table obtained by %s, a query on the ORIGINAL table fails: %s" % (op[0], how, c))
             except Found as f:
                 sig = (ID,) + f.sig_tail
                 what = "step %d %s: %s" % (step, op[0], f.what)
-                # diagnosis: does a forced invalidation through the public API cure it?
-                if f.family in ("rows", "index") and step > 0:
-                    try:
-                        dm.set_refresh_flag()
-                        dm.get_rows()
-                        compare_all(E, dm, m, "R", active, info, light=True, deep_index=True)
-                        cured = True
-                    except (Found, Crash):
-                        cured = False
-                    if cured:
-                        sig = (ID, "not-invalidated", opclass(op), f.family)
-                        what += "  [caches were not invalidated by %s: correct after set_refresh_flag()+get_rows()]" % op[0]
+                fam = info.get("_fam") or ""
+                if fam and step > 0 and f.sig_tail[:1] != ("sibling",) and cured(E, dm, m, active, info, fam):
+                    sig = (ID, "not-invalidated", opclass(op), STALE_FAMILY[fam])
+                    what += "  [caches were not invalidated by %s: the same queries are correct after set_refresh_flag()+get_rows()]" % op[0]
                 res["found"] = (sig, what)
             except Crash as c:
                 sig = (ID, "crash", c.where, type(c.exc).__name__)
                 what = "step %d %s: %s" % (step, op[0], c)
-                if step > 0 and c.where not in FLAGGED and c.where != op[0]:
-                    try:
-                        dm.set_refresh_flag()
-                        dm.get_rows()
-                        compare_all(E, dm, m, "R", active, info, light=True, deep_index=True)
-                        sig = (ID, "not-invalidated", opclass(op), "index" if ("index" in c.where or "block" in c.where or "bundle" in c.where) else "rows")
-                        what += "  [caches were not invalidated by %s: correct after set_refresh_flag()+get_rows()]" % op[0]
-                    except (Found, Crash):
-                        pass
+                fam = info.get("_fam") or ""
+                if fam and step > 0 and cured(E, dm, m, active, info, fam):
+                    sig = (ID, "not-invalidated", opclass(op), STALE_FAMILY[fam])
+                    what += "  [caches were not invalidated by %s: the same queries are correct after set_refresh_flag()+get_rows()]" % op[0]
                 res["found"] = (sig, what)
     finally:
         pass
-    # derived labels
+    info.pop("_fam", None)
     return res
